@@ -540,6 +540,9 @@ func (in *Interp) recordViolation(kind, label, msg string, diag map[string]any, 
 	}
 	tr := make([]decision, len(p.trace))
 	copy(tr, p.trace)
+	if len(p.notes) > 0 {
+		cd["notes"] = strings.Join(p.notes, ",")
+	}
 	p.violations = append(p.violations, Violation{Label: label, Diag: cd, Nondet: vals, Kind: kind, Msg: msg, Prefix: tr})
 }
 
